@@ -219,9 +219,7 @@ class BitStore:
         return bool(self._bitarray.__getitem__(index))
 
     def getslice_withstep_msb0(self, key: slice, /) -> BitStore:
-        if self.modified_length is not None:
-            key = slice(*indices(key, self.modified_length))
-        return BitStore(self._bitarray.__getitem__(key))
+        return BitStore(self._logical().__getitem__(key))
 
     def getslice_withstep_lsb0(self, key: slice, /) -> BitStore:
         key = offset_slice_indices_lsb0(key, len(self))
